@@ -1230,3 +1230,25 @@ theorem gr_mtd_list (qs : List Modulus) (invs : List MulOperand) (t : Modulus) (
     simp only [gr_ok_bind]
     rw [List.take_zero, List.nil_append, Nat.zero_add, List.drop_eq_getElem_cons (by omega), List.drop_eq_nil_of_le (by omega),
       gr_getD_of_lt' cs (s-1) (by omega)]
+
+theorem gr_mapM_forall' {α β : Type} (f : α → R β) (P : α → β → Prop) :
+    ∀ (l : List α), (∀ x ∈ l, ∀ y, f x = .ok y → P x y) → ∀ (r : List β), l.mapM f = .ok r → ∀ y ∈ r, ∃ x ∈ l, P x y := by
+  intro l
+  induction l with
+  | nil => intro _ r h; rw [gr_mapM_nil] at h; cases h; intro y hy; cases hy
+  | cons a l ih =>
+    intro hf r h
+    rw [gr_mapM_cons] at h
+    cases hfa : f a with
+    | error e => rw [hfa] at h; cases h
+    | ok b =>
+      rw [hfa, gr_ok_bind] at h
+      cases hl : l.mapM f with
+      | error e => rw [hl] at h; cases h
+      | ok bs =>
+        rw [hl, gr_ok_bind] at h; cases h
+        intro y hy
+        rcases List.mem_cons.mp hy with h1 | h1
+        · exact ⟨a, by simp, by rw [h1]; exact hf a (by simp) b hfa⟩
+        · obtain ⟨x, hx, hp⟩ := ih (fun x hx => hf x (by simp [hx])) bs hl y h1
+          exact ⟨x, by simp [hx], hp⟩
